@@ -322,3 +322,65 @@ func VInitPid(e Environment) int {
 	}
 	return 0
 }
+
+// VSelHook, when set (world S1), decides which case of a select rewritten by seamgen's selectSeam is tried
+// next: it parks the calling goroutine until the simulator names a case. nil (world K): the select runs as written.
+var VSelHook func(site string, n int) int
+
+// vsimCh enables exactly one receive case of a rewritten select: a nil channel is never ready.
+func vsimCh[T any](on bool, ch <-chan T) <-chan T {
+	if on {
+		return ch
+	}
+	return nil
+}
+
+// vsimChS is vsimCh for a send case.
+func vsimChS[T any](on bool, ch chan<- T) chan<- T {
+	if on {
+		return ch
+	}
+	return nil
+}
+
+// vsimMuLock / vsimMuUnlock stand in for Lock / Unlock of the environment's mutex (seamgen): under the simulator
+// the lock is a channel of capacity one, on which a waiting goroutine is durably blocked (synctest can tell that
+// the bubble is quiescent although a caller is queued behind another one); otherwise the mutex itself.
+var (
+	vsimMuTab   = map[*sync.Mutex]chan struct{}{}
+	vsimMuTabMu sync.Mutex
+)
+
+func vsimMuChan(m *sync.Mutex) chan struct{} {
+	vsimMuTabMu.Lock()
+	defer vsimMuTabMu.Unlock()
+	ch := vsimMuTab[m]
+	if ch == nil {
+		ch = make(chan struct{}, 1)
+		vsimMuTab[m] = ch
+	}
+	return ch
+}
+
+func vsimMuLock(m *sync.Mutex) {
+	if VSelHook == nil {
+		m.Lock()
+		return
+	}
+	vsimMuChan(m) <- struct{}{}
+}
+
+func vsimMuUnlock(m *sync.Mutex) {
+	if VSelHook == nil {
+		m.Unlock()
+		return
+	}
+	<-vsimMuChan(m)
+}
+
+// VMuForget drops the simulator's lock of an environment that is gone (the table is keyed by address).
+func VMuForget() {
+	vsimMuTabMu.Lock()
+	vsimMuTab = map[*sync.Mutex]chan struct{}{}
+	vsimMuTabMu.Unlock()
+}
